@@ -58,6 +58,66 @@ pub unsafe extern "C" fn mprotect(addr: *mut libc::c_void, len: libc::size_t, pr
     libc::syscall(libc::SYS_mprotect, addr, len, prot) as i32
 }
 
+// ---- family "sigrace": pointers with their types are made by several threads at the same time ----
+macro_rules! sr_fns {
+    ($t:ident, $f:ident, $o:ident, $a:ty, $b:ty) => {
+        #[inline(never)]
+        fn $t(x: $a) -> $a {
+            black_box(x)
+        }
+        #[inline(never)]
+        fn $f(x: $a) -> $a {
+            black_box(x)
+        }
+        #[inline(never)]
+        fn $o(x: $b) -> $b {
+            black_box(x)
+        }
+    };
+}
+sr_fns!(sr_t0, sr_f0, sr_o0, u8, i16);
+sr_fns!(sr_t1, sr_f1, sr_o1, u16, i64);
+sr_fns!(sr_t2, sr_f2, sr_o2, i8, u64);
+sr_fns!(sr_t3, sr_f3, sr_o3, i32, f32);
+
+/// One thread: makes its typed pointers (no injector is held: `func!` needs none), then, under its
+/// own injector, offers a replacement of another type (must be refused) and one of the same type
+/// (must be accepted).
+fn sigrace_thread(ti: usize, y: u32) {
+    macro_rules! go {
+        ($t:ident, $f:ident, $o:ident, $a:ty, $b:ty) => {{
+            yields(y);
+            let t1 = ipp_sched::func!($t, fn($a) -> $a);
+            let other = ipp_sched::func!($o, fn($b) -> $b);
+            yields(1);
+            let t2 = ipp_sched::func!(fn ($t)($a) -> $a);
+            let same = ipp_sched::closure!(|x| x, fn($a) -> $a);
+            let _ = ipp_sched::func!($f, fn($a) -> $a);
+            let mut inj = InjectorPP::new();
+            let what = format!("thread {ti}: function of type `{}`", stringify!(fn($a) -> $a));
+            match catch_unwind(AssertUnwindSafe(|| inj.when_called(t1).will_execute_raw(other))) {
+                Ok(()) => viol("structurally-different-signature-accepted", format!("{what}: a replacement of type `{}` was accepted", stringify!(fn($b) -> $b))),
+                Err(p) => {
+                    let m = panic_msg(&p);
+                    if !m.contains("Signature mismatch") {
+                        viol("refusal-with-wrong-message", format!("{what}: {m}"));
+                    }
+                }
+            }
+            if let Err(p) = catch_unwind(AssertUnwindSafe(|| inj.when_called(t2).will_execute_raw(same))) {
+                viol("identical-signature-refused", format!("{what}: a replacement of the same type was refused: {}", panic_msg(&p)));
+            }
+            drop(inj);
+        }};
+    }
+    match ti % 4 {
+        0 => go!(sr_t0, sr_f0, sr_o0, u8, i16),
+        1 => go!(sr_t1, sr_f1, sr_o1, u16, i64),
+        2 => go!(sr_t2, sr_f2, sr_o2, i8, u64),
+        _ => go!(sr_t3, sr_f3, sr_o3, i32, f32),
+    }
+}
+
 /// profile C10: injector rounds also force this function to `true`
 static BOOL_MODE: std::sync::atomic::AtomicBool = std::sync::atomic::AtomicBool::new(false);
 #[inline(never)]
@@ -145,6 +205,7 @@ pub fn props_for(family: &str, profile: &str) -> Vec<&'static str> {
         "excl" => vec!["C04"],
         "count" => vec!["C06"],
         // C06 profile: the counter is zeroed by the harness, so only the accounting itself is judged
+        "sigrace" => vec!["C09"],
         "sharedsite" if profile == "C06" => vec!["C06"],
         "sharedsite" => vec!["C07"],
         "arms" => vec!["C06", "C08"],
@@ -217,6 +278,14 @@ pub fn generate(family: &str, profile: &str, seed: u64, index: u64) -> TScenario
                 calls[t].push(rng.below(100) as u32);
             }
             classes.push(format!("arm{}-N{n}-threads{nt}", if crate::arms_gen::ARM_COUNT > 0 { index as usize % crate::arms_gen::ARM_COUNT } else { 0 }));
+        }
+        "sigrace" => {
+            // 2-4 threads make their typed pointers concurrently; `calls[t][0]` = yields before starting
+            let nt = 2 + rng.below(3) as usize;
+            for _ in 0..nt {
+                calls.push(vec![rng.below(4) as u32]);
+            }
+            classes.push(format!("sigrace-threads{nt}"));
         }
         "sharedsite" => {
             // 2-4 threads, each 1-3 lifetimes built by the SAME fake!(.., times: N) line (a shared
@@ -524,6 +593,17 @@ pub fn execute(sc: &TScenario, sh: &Shared) -> Value {
             }
             let r = catch_unwind(AssertUnwindSafe(move || drop(inj)));
             *ev2.lock().unwrap() = Some(r.map_err(|p| panic_msg(&p)));
+        }
+        "sigrace" => {
+            let mut hs = Vec::new();
+            for (ti, c) in scn.calls.iter().enumerate().skip(1) {
+                let y = c.first().copied().unwrap_or(0);
+                hs.push(simsched::thread::spawn(move || sigrace_thread(ti, y)));
+            }
+            sigrace_thread(0, scn.calls.first().and_then(|c| c.first().copied()).unwrap_or(0));
+            for h in hs {
+                let _ = h.join();
+            }
         }
         "sharedsite" => {
             N_EXPECT.store(scn.n, Ordering::SeqCst);
